@@ -706,11 +706,6 @@ func (s *storage) append(br blob.SizedRef, r io.Reader) error {
 	}
 
 	packIdx := len(s.fds) - 1
-	if s.size > s.maxFileSize {
-		if err := s.nextPack(); err != nil {
-			return err
-		}
-	}
 	err = s.index.Set(br.Ref.String(), blobMeta{packIdx, offset, br.Size}.String())
 	if err != nil {
 		if _, seekErr := s.writer.Seek(origOffset, io.SeekStart); seekErr != nil {
@@ -720,8 +715,16 @@ func (s *storage) append(br blob.SizedRef, r io.Reader) error {
 		} else {
 			s.size = origOffset
 		}
+		return err
 	}
-	return err
+	// Only roll over to the next pack once the blob is indexed, so that
+	// the rollback above always applies to the pack the blob was written to.
+	if s.size > s.maxFileSize {
+		if err := s.nextPack(); err != nil {
+			return err
+		}
+	}
+	return nil
 }
 
 // meta fetches the metadata for the specified blob from the index.
